@@ -75,7 +75,7 @@ var encryptErrExceptions = []ErrException{
 
 func runC09(c *Ctx) {
 	p, r := c.P, c.R
-	r.Explanation = "Decides the fail-closed and secure-default clauses structurally: every return of every Node.Process implementation of the repository carries a nil event or a nil error (never both non-nil); inside the encrypt walk no fallible call's error is dropped and each is returned (itself or wrapped) on every path of its error branch, so it reaches Process's error result; rotation payloads are consumed; DefaultFilterOperations is the literal table {public: none, sensitive: encrypt, secret: redact}, a missing tag yields (unknown, unknown) and convertToOperation is the identity on the declared constants; the full decision table of filterValue over classification x operation (no mutation iff public or none; secret/sensitive -> encrypt | hmac | redact per operation, anything else an error; every other classification redacted) including which early exits skip protection; NoOperation never survives for sensitive/secret unless it came from the override map; the handler inventory of the three reflective dispatchers; and that struct values handed to the field walk are settable or replaced by an addressable copy. It does not decide that the reflective walk reaches every string of every payload shape (reflection is opaque), nor cryptographic secrecy. C09.tagpair: every on-the-spot classification is computed from the tag that belongs to the very value being filtered (field i / the same PointerTag, in classification,operation order; write-back pointer and tracking entry agree; bare payloads are secret). C09.skip: closed vocabulary of skip conditions in the walkers; C09.mark: keys are marked filtered only in the map that directly holds the value; a payload that is itself a map is tracked for the final sweep. C09.shortcut: the untouched early return is taken only if every class's effective operation is none. C09.nilelem: no reflect.Value method that panics on the zero Value is reachable from an Elem() without a validity test (nil elements and fields are skipped, not a crash). C09.mark key-unescaped: tracking and pointerstructure agree on the key a pointer names. C09.defaults snapshot/option verbatim: operation overrides reach the tag decision exactly as configured. C09.every: element walkers leave a handling loop early only with an error. C09.handlers taggable-field-unconditional: a Taggable field's tags are applied whatever options the walk got (F52); C09.nilelem covers MapIndex results (F51). C09.handlers taggable-then-generic: after filterTaggable a trackMap and a filterField call stay reachable within the same iteration. C09.recover: recover discipline over package encrypt. C09.mark skip-identity: the name the sweep looks a key up under is derived from the key's typed accessors only. C09.handlers struct-arm-unconditional and C09.kind struct-kind (F56)."
+	r.Explanation = "Decides the fail-closed and secure-default clauses structurally: every return of every Node.Process implementation of the repository carries a nil event or a nil error (never both non-nil); inside the encrypt walk no fallible call's error is dropped and each is returned (itself or wrapped) on every path of its error branch, so it reaches Process's error result; rotation payloads are consumed; DefaultFilterOperations is the literal table {public: none, sensitive: encrypt, secret: redact}, a missing tag yields (unknown, unknown) and convertToOperation is the identity on the declared constants; the full decision table of filterValue over classification x operation (no mutation iff public or none; secret/sensitive -> encrypt | hmac | redact per operation, anything else an error; every other classification redacted) including which early exits skip protection; NoOperation never survives for sensitive/secret unless it came from the override map; the handler inventory of the three reflective dispatchers; and that struct values handed to the field walk are settable or replaced by an addressable copy. It does not decide that the reflective walk reaches every string of every payload shape (reflection is opaque), nor cryptographic secrecy. C09.tagpair: every on-the-spot classification is computed from the tag that belongs to the very value being filtered (field i / the same PointerTag, in classification,operation order; write-back pointer and tracking entry agree; bare payloads are secret). C09.skip: closed vocabulary of skip conditions in the walkers; C09.mark: keys are marked filtered only in the map that directly holds the value; a payload that is itself a map is tracked for the final sweep. C09.shortcut: the untouched early return is taken only if every class's effective operation is none. C09.nilelem: no reflect.Value method that panics on the zero Value is reachable from an Elem() without a validity test (nil elements and fields are skipped, not a crash). C09.mark key-unescaped: tracking and pointerstructure agree on the key a pointer names. C09.defaults snapshot/option verbatim: operation overrides reach the tag decision exactly as configured. C09.every: element walkers leave a handling loop early only with an error. C09.handlers taggable-field-unconditional: a Taggable field's tags are applied whatever options the walk got (F52); C09.nilelem covers MapIndex results (F51). C09.handlers taggable-then-generic: after filterTaggable a trackMap and a filterField call stay reachable within the same iteration. C09.recover: recover discipline over package encrypt. C09.mark skip-identity: the name the sweep looks a key up under is derived from the key's typed accessors only. C09.handlers struct-arm-unconditional and C09.kind struct-kind (F56). C09.elements whole-range: every reflect Index(i) in package encrypt sits in a loop from 0, step 1, to Len() of the indexed value; partitioned loops are reported as not decided."
 	r.NotDecided = []string{"completeness of the reflective walk over all payload shapes (arm priority, pointer depth, arrays, shapes falling into the 'nothing reasonable yet' defaults)", "cryptographic secrecy of the wrapper"}
 	c.errControls()
 
@@ -113,6 +113,7 @@ func runC09(c *Ctx) {
 	c.ruleSweepUnknown("C09.value")
 	c.rulePointerKindGuard("C09.nilelem")
 	c.ruleStructKindGuard("C09.kind")
+	c.ruleElementLoops("C09.elements")
 	c.ruleStructArmRecurses("C09.handlers")
 	c.ruleTaggableTrackIdentity("C09.mark")
 	c.ruleSkipIdentity("C09.mark")
